@@ -25,6 +25,7 @@ import (
 
 	"github.com/DOSNetwork/core/group/bn256"
 	"github.com/dedis/kyber"
+	kmod "github.com/dedis/kyber/group/mod"
 	google "github.com/ethereum/go-ethereum/crypto/bn256/google"
 
 	"verifharness/internal/h"
@@ -39,6 +40,12 @@ func kyScalar(g kyber.Group, k *big.Int) kyber.Scalar {
 	}
 	return sc
 }
+
+// a kyber scalar whose mod.Int has a WIDER modulus than the group order: V = k is handed to the curve code
+// unreduced (point.go reads s.(*mod.Int).V and never looks at the modulus). The property demands k·P = (k mod r)·P.
+var wideModulus = new(big.Int).Lsh(big.NewInt(1), 640)
+
+func kyScalarWide(k *big.Int) kyber.Scalar { return kmod.NewInt(k, wideModulus) }
 
 func kyAlias3(alias string, c, a, b kyber.Point) (kyber.Point, kyber.Point, kyber.Point) {
 	switch alias {
@@ -164,21 +171,25 @@ func execK1(w []string, res *h.Result) {
 				res.Oracle = "c10-k1-argument-modified: " + op + " changed its argument"
 			}
 		}
-	case "mul":
+	case "mul", "mulu":
 		alias := w[2]
 		c, _ := mk(w[3])
 		a, _ := mk(w[4])
 		k := h.BigDec(w[5])
 		pc, pa, _ := kyAlias3(alias, c, a, a)
 		av := raw(pa)
-		pc.Mul(kyScalar(g, k), pa)
+		if op == "mulu" {
+			pc.Mul(kyScalarWide(k), pa)
+		} else {
+			pc.Mul(kyScalar(g, k), pa)
+		}
 		r := raw(pc)
 		ar := raw(pa)
 		outs = append(outs, hexFes(r[:]), hexFes(ar[:]))
 		res.Class += "-" + kyScalarClass(k) + "-" + alias
 		if onCurveJacG1(av) {
 			A := affG1(av)
-			res.Oracle = retag(checkG1Mul(affG1(r), A, kmodr(k)), "c10-g1-mul", "c10-k1-mul")
+			res.Oracle = retag(checkG1Mul(affG1(r), A, kmodr(k)), "c10-g1-mul", "c10-k1-"+op)
 			if res.Oracle == "" && !refEq(affG1(r), refMulSigned(A, k)) {
 				res.Oracle = fmt.Sprintf("c10-k1-mul: (k mod r)·A differs from k·A for k = %s", k)
 			}
@@ -296,19 +307,23 @@ func execK2(w []string, res *h.Result) {
 				res.Oracle = "c10-k2-argument-modified: " + op + " changed its argument"
 			}
 		}
-	case "mul":
+	case "mul", "mulu":
 		alias := w[2]
 		pc, pa, _ := kyAlias3(alias, mk(w[3]), mk(w[4]), nil)
 		k := h.BigDec(w[5])
 		av := raw(pa)
-		pc.Mul(kyScalar(g, k), pa)
+		if op == "mulu" {
+			pc.Mul(kyScalarWide(k), pa)
+		} else {
+			pc.Mul(kyScalar(g, k), pa)
+		}
 		r := raw(pc)
 		ar := raw(pa)
 		outs = append(outs, hexFes(r[:]), hexFes(ar[:]))
 		res.Class += "-" + kyScalarClass(k) + "-" + alias
 		if onCurveJacG2(av) {
 			A := affG2(av)
-			res.Oracle = retag(checkG2Mul(affG2(r), A, kmodr(k)), "c10-g2-mul", "c10-k2-mul")
+			res.Oracle = retag(checkG2Mul(affG2(r), A, kmodr(k)), "c10-g2-mul", "c10-k2-"+op)
 			if _, err := googleG2(A); err == nil && res.Oracle == "" && !refEq(affG2(r), refMulSigned(A, k)) {
 				res.Oracle = fmt.Sprintf("c10-k2-mul: (k mod r)·A differs from k·A for k = %s", k)
 			}
@@ -482,12 +497,16 @@ func execKT(w []string, res *h.Result) {
 				res.Oracle = "c10-kt-" + op + ": wrong value"
 			}
 		}
-	case "mul":
+	case "mul", "mulu":
 		alias := w[2]
 		pc, pa, _ := kyAlias3(alias, mk(w[3]), mk(w[4]), nil)
 		k := h.BigDec(w[5])
 		av := raw(pa)
-		pc.Mul(kyScalar(g, k), pa)
+		if op == "mulu" {
+			pc.Mul(kyScalarWide(k), pa)
+		} else {
+			pc.Mul(kyScalar(g, k), pa)
+		}
 		r := raw(pc)
 		emit(pc, pa)
 		res.Class += "-" + kyScalarClass(k) + "-" + alias
@@ -632,6 +651,20 @@ func genKyber(tier string, rng *h.Rng, emit func(string)) {
 	for i := 0; i < 30*scale; i++ {
 		emit(fmt.Sprintf("k1 mul %s %s %s %s", una[i%2], hexG1(recv1()), hexG1(repG1(rng, pts1(), rng.Bool())), kyRandScalar(rng)))
 	}
+	// UNREDUCED scalars through the kyber interface (a mod.Int over a wider modulus): m·r + j and ladder-collision prefixes
+	for i, k := range ladderScalars {
+		if i%3 == 0 || tier == "thorough" {
+			P := G
+			if i%2 == 1 {
+				P = pts1()
+			}
+			emit(fmt.Sprintf("k1 mulu %s %s %s %s", una[i%2], hexG1(recv1()), hexG1(repG1(rng, P, rng.Bool())), k))
+		}
+	}
+	for i := 0; i < 6*scale; i++ {
+		emit(fmt.Sprintf("k1 mulu %s %s %s %s", una[i%2], hexG1(recv1()), hexG1(repG1(rng, pts1(), rng.Bool())), randLadderScalar(rng)))
+	}
+	emit(fmt.Sprintf("k1 mulu n %s %s %s", hexG1(recv1()), hexG1(repG1(rng, pts1(), false)), max256))
 
 	// G2
 	pts2 := func() refPt { return refMul(refG2, new(big.Int).Add(rng.Big(refOrder), big.NewInt(1))) }
@@ -688,6 +721,11 @@ func genKyber(tier string, rng *h.Rng, emit func(string)) {
 	for i := 0; i < 6*scale; i++ {
 		emit(fmt.Sprintf("k2 mul %s %s %s %s", una[i%2], hexG2(recv2()), hexG2(repG2(rng, pts2(), rng.Bool())), kyRandScalar(rng)))
 	}
+	for i, k := range ladderScalars {
+		if i%12 == 4 || tier == "thorough" {
+			emit(fmt.Sprintf("k2 mulu %s %s %s %s", una[i%2], hexG2(recv2()), hexG2(repG2(rng, pts2(), rng.Bool())), k))
+		}
+	}
 
 	// GT: elements of the order-r subgroup (powers of the generator) and arbitrary reduced elements
 	gen := bn256.VerifGTGen()
@@ -742,6 +780,12 @@ func genKyber(tier string, rng *h.Rng, emit func(string)) {
 		if i%2 == 0 || tier == "thorough" {
 			a, ka := gtPow()
 			emit(fmt.Sprintf("kt mul %s %s %s %s %s", una[i%2], gtRecv(), a, k, ka))
+		}
+	}
+	for i, k := range ladderScalars {
+		if i%12 == 5 || tier == "thorough" {
+			a, ka := gtPow()
+			emit(fmt.Sprintf("kt mulu %s %s %s %s %s", una[i%2], gtRecv(), a, k, ka))
 		}
 	}
 	emit(fmt.Sprintf("kt mulnil %s %s", gtRecv(), kyScalars[3]))
